@@ -807,6 +807,20 @@ func registerIntercepts(g *Engine) {
 		e.lastNow = ext
 		return StructVal{t.Const(64, 1<<63), ext, PtrVal{}}
 	}
+	// verifAdvanceClock(d): time passes between two harness steps; the next
+	// reading is at least d (a concrete duration) later than the last one.
+	ic["verif:verifAdvanceClock"] = func(e *Exec, fn *ssa.Function, a []Value) Value {
+		d := e.scalar(a[0])
+		if !d.IsConst() {
+			panic(e.unsupported("verifAdvanceClock needs a concrete duration"))
+		}
+		if e.lastNow == nil {
+			ic["time.Now"](e, fn, nil)
+		}
+		t := e.tb
+		e.lastNow = t.mk(Node{op: OAdd, w: 64, args: []*Node{e.lastNow, t.Const(64, d.val)}})
+		return nil
+	}
 	ic["time.runtimeNano"] = func(e *Exec, fn *ssa.Function, a []Value) Value {
 		tv := ic["time.Now"](e, fn, nil).(StructVal)
 		return tv[1]
